@@ -79,8 +79,16 @@ class C06(object):
 
     def gen(self, rs, ctx):
         rnd = random.Random(rs)
+        desc = self.draw_case(rnd, ctx, None)
+        if desc["entry"] != "score" and rnd.random() < 0.2:
+            # the pyf declares score_and_refine / refine_assigned threadsafe (GIL released): other caller threads run
+            # the same kernel on their own arguments at the same time
+            desc["concurrent"] = [self.draw_case(rnd, ctx, desc["entry"]) for _ in range(rnd.choice([1, 2, 3]))]
+        return desc
+
+    def draw_case(self, rnd, ctx, kern):
         g = np.random.default_rng(rnd.getrandbits(48))
-        kern = rnd.choice(["score", "score_and_refine", "score_and_refine", "refine_assigned", "refine_assigned"])
+        kern = kern or rnd.choice(["score", "score_and_refine", "score_and_refine", "refine_assigned", "refine_assigned"])
         a = g.uniform(3, 12, 3) * rnd.choice([1, 1, 1, 8, 30])  # up to protein-sized cells (volume > 1e6 A^3)
         ubi_true = np.diag(a) @ rot(g).T
         if rnd.random() < 0.4:  # triclinic-ish + strain
@@ -235,7 +243,11 @@ class C06(object):
                         viol = {"class": "refined-matrix-differs", "key": kern + ":refined-matrix-differs",
                                 "detail": "refined UBI differs from the least-squares solution by %.3g (limit %.3g, cond %.3g, "
                                           "%d peaks)" % (err, lim, cond, nidx)}
+        nconc = 0
+        if viol is None and desc.get("concurrent"):
+            viol, nconc = self.exec_concurrent(desc, ctx)
         meas = enginea.run_measures(st0, cfg)
+        meas["concurrent_caller_runs"] = 1 if nconc else 0
         meas["kernel"] = {kern: 1}
         meas["selection"] = {desc["sel"]: 1}
         meas["peaks_exactly_on_the_tolerance"] = int((ss_all == tol * tol).sum())
@@ -243,6 +255,48 @@ class C06(object):
         dig = enginea.sha(st0["digest"], repr(ret0[0]) if ret0 else None, *([ret0[1][k] for k in sorted(ret0[1])] if ret0 else []))
         return {"digest": dig, "sig": enginea.sha(kern, ubi, gv, tol, desc["labels"], desc["label"]),
                 "nontrivial": nidx > 0, "viol": viol, "measures": meas}
+
+
+    def _call_spec(self, case):
+        kern = case["entry"]
+        ubi = np.array(case["ubi"])
+        gv = np.array(case["gv"], float).reshape(-1, 3)
+        n = len(gv)
+        if kern == "score_and_refine":
+            return (kern, {"ubi": ubi, "gv": gv, "tol": case["tol"], "n": [1], "sumdrlv2": [1], "ng": n},
+                    {"ubi": "io", "gv": "in", "n": "out", "sumdrlv2": "out"})
+        return (kern, {"ubi": ubi, "gv": gv, "labels": np.array(case["labels"], np.int32), "label": case["label"],
+                       "npk": [1], "drlv2": [1], "ng": n},
+                {"ubi": "io", "gv": "in", "labels": "in", "npk": "out", "drlv2": "out"})
+
+    def exec_concurrent(self, desc, ctx):
+        """each caller's refined matrix / count / error must equal what the same call gives when made alone"""
+        sim = ctx.sim
+        cfg = dict(desc["cfg"], team=1)
+        cases = [desc] + desc["concurrent"]
+        specs = [self._call_spec(c) for c in cases]
+        solos = []
+        for kern, vals, roles in specs:
+            ret, arr, st = kernels.run_kernel(sim, kern, vals, roles, cfg, gstyle=desc["gstyle"], track_conflicts=0)
+            v = enginea.viol_from_stats(st, kern, kernels.region_names(kern))
+            if v is not None:
+                return v, len(cases)
+            solos.append({k: arr[k].copy() for k in arr if roles[k] in ("io", "out")})
+        outs, st = kernels.run_concurrent(sim, specs, dict(cfg, strategy=desc["cfg"]["strategy"]), gstyle=desc["gstyle"],
+                                          pct_est=max(50, 30 * max(len(c["gv"]) for c in cases)))
+        v = enginea.viol_from_stats(st, desc["entry"], {})
+        if v is not None:
+            v["key"] = desc["entry"] + ":concurrent:" + v["class"]
+            return v, len(cases)
+        for k, (kern, vals, roles) in enumerate(specs):
+            ret, arr = outs[k]
+            for name, want in solos[k].items():
+                if arr[name].tobytes() != want.tobytes():
+                    return {"class": "not-reentrant", "key": kern + ":not-reentrant",
+                            "detail": "%d caller threads ran %s at the same time on their own arguments; caller %d got %s = %s, "
+                                      "alone the same call gives %s (state shared between calls)" %
+                                      (len(cases), kern, k, name, arr[name].ravel()[:3], want.ravel()[:3])}, len(cases)
+        return None, len(cases)
 
 
 CHECK = C06()
